@@ -14,8 +14,8 @@ The theorems are about `Cpppo.Session.serve` (the `enip_srv_tcp` loop) and `proc
 `UCMM.request` / `Connection_Manager.request`, with `Cpppo.Logix.exec` as the tag-serving core), for *every* device
 state, route personality, random stream, list of frames (any length, any mixture of kinds, failing ones
 included), every sender context, session handle, status and options value.  "Well-formed" is `Frame.parsable`:
-the frame is accepted by the simulator's command grammar (everything but a Register shorter than 4 bytes, an
-unknown encapsulation command, and an item list the CPF parser cannot finish); what happens to the others is
+the frame is accepted by the simulator's command grammar (everything but a Register shorter than 4 bytes and an
+unknown encapsulation command); what happens to the others is
 `unparsable_not_answered` (the connection is dropped without a reply: documented behaviour of `enip_srv`).
 
 The code before the `fix:` commit is `processOld`: `old_echoes_request` is the witness that it violated the
@@ -160,14 +160,13 @@ theorem unsupported_nonzero (cfg : Cfg) (s : Srv) (f : Frame) (u : Bool) (i t : 
   rw [serveWith, hpe]
   simp [echo, hne]
 
-/-- a frame whose items are not [null address, unconnected data] but which the CPF parser can read is refused
-in the same way -/
+/-- a frame whose item list is not [null address, unconnected data] is refused in the same way -/
 theorem bad_items_refused (cfg : Cfg) (s : Srv) (f : Frame) (u : Bool) (i t : Nat) (items : List (Nat × Bytes))
-    (hb : f.body = .sendItems u i t items) (hp : itemsParse items = true) :
+    (hb : f.body = .sendItems u i t items) :
     process cfg s f = (s, .reply (echo f (failStatus f.hdr.status) [])) := by
-  simp [process, processWith, hb, hp, refuse]
+  simp [process, processWith, hb, refuse]
 
-/-- frames outside the grammar (short Register, unknown command, unreadable item list) are not answered at all:
+/-- frames outside the grammar (short Register, unknown command) are not answered at all:
 `logix.process` raises and `enip_srv_tcp` drops the connection -/
 theorem unparsable_not_answered (cfg : Cfg) (s : Srv) (f : Frame) (rest : List Frame) (h : f.parsable = false) :
     serve cfg s (f :: rest) = ⟨s, [], 1, .aborted⟩ := by
